@@ -30,6 +30,7 @@ type Clause struct {
 	Callee  string // for atcall clauses: short key of the callee
 	Ranked  bool   // termination clause: checked only at calls of callees whose rank is not below the unit's rank
 	Group   string // clause group this clause was spliced from ("" = the function's own clause)
+	BoundedOnly bool // ensures-bounded: checked only by the executable harness over the bounded domain (labelled bounded, never an obligation, never assumed)
 }
 
 type LoopSpec struct {
@@ -249,13 +250,17 @@ func parseContractText(pkg, file string, src []byte) ([]*Contract, error) {
 			c := &Clause{Kind: "requires", Line: lineNo, File: file, Assumed: true}
 			c.Label, c.Props, c.Text = parseLabel(rest)
 			cur.Requires = append(cur.Requires, c)
-		case "requires", "ensures", "ensures-def":
+		case "requires", "ensures", "ensures-def", "ensures-bounded":
 			c := &Clause{Kind: word, Line: lineNo, File: file}
 			c.Label, c.Props, c.Text = parseLabel(rest)
 			if word == "ensures-def" {
 				// definitional postcondition of a ghost predicate: assumed by callers, not an obligation of the body
 				c.Kind = "ensures"
 				c.Def = true
+			}
+			if word == "ensures-bounded" {
+				c.Kind = "ensures"
+				c.BoundedOnly = true
 			}
 			if word == "requires" {
 				cur.Requires = append(cur.Requires, c)
